@@ -76,10 +76,10 @@ theorem C04_dtype_scalar (cfg : Cfg) (sfh : Bool) (v : Val) (h : Val.Scalarish c
 /-- third law, from C01: what accepts the detailed type contains the value (rule off, fragment of `C01_sound_partial`) -/
 theorem C04_accepts_sound_partial (cfg : Cfg) (hl : ∀ s, (cfg.lower s).length = s.length) (t : Ty) (v : Val)
     (ft : t.Frag) (fd : (dtype cfg false v).Frag) (wt : Ty.WF cfg t) (wd : Ty.WF cfg (dtype cfg false v))
-    (us : (dtype cfg false v).US) (ok : v.OK)
+    (us : (dtype cfg false v).US) (ok : v.OK) (tv : Val.TyOK cfg v)
     (hd : inst cfg false (dtype cfg false v) v = true)
     (h : asg cfg false t (dtype cfg false v) = true) : inst cfg false t v = true :=
-  sound_all cfg hl _ t _ v (Nat.le_refl _) ⟨ft, fd, wt, wd, us, ok⟩ h hd
+  sound_all cfg hl _ t _ v (Nat.le_refl _) ⟨ft, fd, wt, wd, us, ok, tv⟩ h hd
 
 /-! ### commonType: the branches that are bounds by themselves -/
 theorem C04_common_unit (cfg : Cfg) (sfh : Bool) (n : Nat) (b : Ty) : commonF cfg sfh (n + 1) .unit b = b := by
